@@ -239,7 +239,9 @@ PROPS = {
         "streams": {
             "quick": [("default", "frombin", 1500), ("default", "acc", 1200), ("embedded", "frombin", 600),
                       ("embedded", "acc", 600), ("default", "fmt", 300), ("default", "store", 2),
-                      ("strict", "frombin", 600), ("strict", "acc", 200), ("default", "limits", 5)],
+                      ("strict", "frombin", 600), ("strict", "acc", 200), ("default", "limits", 5),
+                      # accessors with overflow checks on (index arithmetic in a narrow integer type)
+                      ("default-dev", "acc", 300), ("default-dev", "frombin", 200)],
             "thorough": [("default", "frombin", 30000), ("default", "acc", 30000), ("embedded", "frombin", 10000),
                          ("embedded", "acc", 10000), ("naive", "acc", 10000), ("unsafe", "frombin", 10000),
                          ("unsafe", "acc", 10000), ("default-dev", "acc", 5000), ("default", "fmt", 10000),
@@ -498,7 +500,7 @@ PROPS = {
                                  "len", "stream", "cmpstr", "serde"],
         "panic_concrete": True,
         "streams": {
-            "quick": [('optdef-dev', 'store', 1), ('optdef-dev', 'parse', 300), ('optdef-dev', 'fmt', 40), ('optdef-dev', 'gen', 100), ('unsafe', 'gen', 600), ('unsafe', 'state', 600), ('unsafe', 'hist', 300), ('unsafe', 'parse', 1500), ('unsafe', 'fmt', 150), ('unsafe', 'frombin', 300), ('unsafe', 'store', 2), ('unsafe', 'acc', 300), ('unsafe', 'cmp', 1000), ('unsafe', 'body', 600), ('unsafe', 'len', 1000), ('unsafe', 'stream', 400), ('unsafe', 'cmpstr', 800), ('default-dev', 'gen', 300), ('default-dev', 'state', 300), ('default-dev', 'hist', 150), ('default-dev', 'parse', 750), ('default-dev', 'fmt', 75), ('default-dev', 'frombin', 150), ('default-dev', 'store', 1), ('default-dev', 'acc', 150), ('default-dev', 'cmp', 500), ('default-dev', 'body', 300), ('default-dev', 'len', 500), ('default-dev', 'stream', 200), ('default-dev', 'cmpstr', 400), ('unsafe-dev', 'gen', 300), ('unsafe-dev', 'state', 300), ('unsafe-dev', 'hist', 150), ('unsafe-dev', 'parse', 750), ('unsafe-dev', 'fmt', 75), ('unsafe-dev', 'frombin', 150), ('unsafe-dev', 'store', 1), ('unsafe-dev', 'acc', 150), ('unsafe-dev', 'cmp', 500), ('unsafe-dev', 'body', 300), ('unsafe-dev', 'len', 500), ('unsafe-dev', 'stream', 200), ('unsafe-dev', 'cmpstr', 400), ('unsafe', 'lie', 0), ('unsafe-dev', 'lie', 0), ('default', 'lie', 0), ('default-dev', 'lie', 0), ('unsafe-strict', 'serde', 150), ('unsafe-strict', 'frombin', 300)],
+            "quick": [('embedded', 'gen', 200), ('embedded', 'state', 200), ('embedded', 'hist', 100), ('optdef-dev', 'store', 1), ('optdef-dev', 'parse', 300), ('optdef-dev', 'fmt', 40), ('optdef-dev', 'gen', 100), ('unsafe', 'gen', 600), ('unsafe', 'state', 600), ('unsafe', 'hist', 300), ('unsafe', 'parse', 1500), ('unsafe', 'fmt', 150), ('unsafe', 'frombin', 300), ('unsafe', 'store', 2), ('unsafe', 'acc', 300), ('unsafe', 'cmp', 1000), ('unsafe', 'body', 600), ('unsafe', 'len', 1000), ('unsafe', 'stream', 400), ('unsafe', 'cmpstr', 800), ('default-dev', 'gen', 300), ('default-dev', 'state', 300), ('default-dev', 'hist', 150), ('default-dev', 'parse', 750), ('default-dev', 'fmt', 75), ('default-dev', 'frombin', 150), ('default-dev', 'store', 1), ('default-dev', 'acc', 150), ('default-dev', 'cmp', 500), ('default-dev', 'body', 300), ('default-dev', 'len', 500), ('default-dev', 'stream', 200), ('default-dev', 'cmpstr', 400), ('unsafe-dev', 'gen', 300), ('unsafe-dev', 'state', 300), ('unsafe-dev', 'hist', 150), ('unsafe-dev', 'parse', 750), ('unsafe-dev', 'fmt', 75), ('unsafe-dev', 'frombin', 150), ('unsafe-dev', 'store', 1), ('unsafe-dev', 'acc', 150), ('unsafe-dev', 'cmp', 500), ('unsafe-dev', 'body', 300), ('unsafe-dev', 'len', 500), ('unsafe-dev', 'stream', 200), ('unsafe-dev', 'cmpstr', 400), ('unsafe', 'lie', 0), ('unsafe-dev', 'lie', 0), ('default', 'lie', 0), ('default-dev', 'lie', 0), ('unsafe-strict', 'serde', 150), ('unsafe-strict', 'frombin', 300)],
             "thorough": [('unsafe', 'gen', 12000), ('unsafe', 'state', 12000), ('unsafe', 'hist', 6000), ('unsafe', 'parse', 30000), ('unsafe', 'fmt', 3000), ('unsafe', 'frombin', 6000), ('unsafe', 'store', 40), ('unsafe', 'acc', 6000), ('unsafe', 'cmp', 20000), ('unsafe', 'body', 12000), ('unsafe', 'len', 20000), ('unsafe', 'stream', 8000), ('unsafe', 'cmpstr', 16000), ('default-dev', 'gen', 4800), ('default-dev', 'state', 4800), ('default-dev', 'hist', 2400), ('default-dev', 'parse', 12000), ('default-dev', 'fmt', 1200), ('default-dev', 'frombin', 2400), ('default-dev', 'store', 16), ('default-dev', 'acc', 2400), ('default-dev', 'cmp', 8000), ('default-dev', 'body', 4800), ('default-dev', 'len', 8000), ('default-dev', 'stream', 3200), ('default-dev', 'cmpstr', 6400), ('unsafe-dev', 'gen', 4800), ('unsafe-dev', 'state', 4800), ('unsafe-dev', 'hist', 2400), ('unsafe-dev', 'parse', 12000), ('unsafe-dev', 'fmt', 1200), ('unsafe-dev', 'frombin', 2400), ('unsafe-dev', 'store', 16), ('unsafe-dev', 'acc', 2400), ('unsafe-dev', 'cmp', 8000), ('unsafe-dev', 'body', 4800), ('unsafe-dev', 'len', 8000), ('unsafe-dev', 'stream', 3200), ('unsafe-dev', 'cmpstr', 6400), ('optdef-dev', 'gen', 2400), ('optdef-dev', 'state', 2400), ('optdef-dev', 'hist', 1200), ('optdef-dev', 'parse', 6000), ('optdef-dev', 'fmt', 600), ('optdef-dev', 'frombin', 1200), ('optdef-dev', 'store', 8), ('optdef-dev', 'acc', 1200), ('optdef-dev', 'cmp', 4000), ('optdef-dev', 'body', 2400), ('optdef-dev', 'len', 4000), ('optdef-dev', 'stream', 1600), ('optdef-dev', 'cmpstr', 3200), ('unsafe', 'lie', 0), ('unsafe-dev', 'lie', 0), ('default', 'lie', 0), ('default-dev', 'lie', 0), ('unsafe-strict', 'serde', 3000), ('unsafe-strict', 'frombin', 10000), ('unsafe', 'bodyrows', 8), ('unsafe', 'len-sweep', 0)],
         },
         "rule": "the broad streams of the other properties re-run in the `unsafe` release build and in dev builds "
@@ -663,3 +665,21 @@ def _thorough_superset():
 
 
 _thorough_superset()
+
+
+# --- code selected by `cfg(target_feature = "avx512vl")` can only be run where the CPU has the feature
+def _avx512():
+    try:
+        flags = open("/proc/cpuinfo").read()
+    except OSError:
+        return
+    if " avx512vl" not in flags:
+        return
+    for pid, streams in (("C02", [("body", 600), ("cmp", 1000)]), ("C07", [("body", 200), ("cmp", 400), ("gen", 250), ("agg", 200)]),
+                         ("C08", [("cmp", 800)])):
+        for tier, mul in (("quick", 1), ("thorough", 8)):
+            for st, b in streams:
+                PROPS[pid]["streams"][tier].append(("static-avx512vl", st, b * mul))
+
+
+_avx512()
